@@ -954,11 +954,18 @@ class NonMementoFunctionHashRule(HashRule):
         ref: object,
         first_level: bool,
     ) -> Optional["NonMementoFunctionHashRule"]:
+        if not callable(ref):
+            return None
+        # (a function wrapped by functools.lru_cache or the like is an object without
+        # __globals__ of its own around a function that has them)
+        is_function = hasattr(ref, "__globals__") or (
+            hasattr(ref, "__wrapped__") and hasattr(inspect.unwrap(ref), "__globals__")
+        )
         return (
             NonMementoFunctionHashRule(
                 parent_symbol, symbol, resolver, ref, first_level
             )
-            if callable(ref) and hasattr(ref, "__globals__")
+            if is_function
             else None
         )
 
